@@ -8,7 +8,7 @@ NOTE = ("Trusted: the symgo interpreter and its models of reflect, sync, fmt, so
         "(real ANTLR front end run natively on each concrete text); z3. Sampled path models are re-run natively and "
         "must agree; every reported counterexample is replayed natively first. A thinned sample of each run's decided "
         "queries is re-decided by z3 5.1 and cvc5 1.0 (any disagreement is exit 2). The instance families named in the "
-        "level text were widened in five rounds of seeded changes; DESIGN.md section 6 has the current shapes and "
+        "level text were widened in six rounds of seeded changes; DESIGN.md section 6 has the current shapes and "
         "counts, section 9 the per-seed record.")
 
 CLAIMED = {
